@@ -332,11 +332,15 @@ def rule_x5(chk: Check, ir):
     nm = repo.find_func(parser, "name")
     kw = repo.find_func(parser, "keyword")
     chk.count("X5-keyword-tables")
-    t1 = [norm_stmt(n.test) for n in ast.walk(nm) if isinstance(n, ast.If)]
-    t2 = [norm_stmt(n.test) for n in ast.walk(kw) if isinstance(n, ast.If)]
-    chk.require(t1 == ["tok.type == Token.NAME and tok.string not in self.KEYWORDS"] and
-                t2 == ["tok.type == Token.NAME and tok.string in self.KEYWORDS"], "X5-keyword-tables", "Parser.name/keyword",
-                f"{repo.SUBHEADER}:{nm.lineno}", f"NAME must refuse exactly the hard keywords (tests: {t1} / {t2})")
+    from .c01 import eval_leaf_matcher
+    u1, b1 = eval_leaf_matcher(nm, "Parser.name")
+    u2, b2 = eval_leaf_matcher(kw, "Parser.keyword")
+    t1, t2 = (u1 or b1), (u2 or b2)
+    if u1 or u2:
+        chk.undecided("X5-keyword-tables", "Parser.name/keyword", f"{repo.SUBHEADER}:{nm.lineno}", f"matchers not evaluable: {u1 or u2}")
+    else:
+        chk.require(not t1 and not t2, "X5-keyword-tables", "Parser.name/keyword",
+                    f"{repo.SUBHEADER}:{nm.lineno}", f"NAME must refuse exactly the hard keywords (tests: {t1} / {t2})")
 
 
 def rule_x6(chk: Check, ir):
